@@ -2,6 +2,7 @@ package rules
 
 import (
 	"fmt"
+	"go/types"
 	"sort"
 	"strings"
 
@@ -137,4 +138,61 @@ func c13Label(c *Ctx) {
 		}
 	}
 	r.Min("C13.label", 40)
+}
+
+// c13PubType: a key object whose type says "public key" must not be able to
+// carry a private key in a component of interface type key.Key — its
+// serializer labels the whole key ASYMMETRIC_PUBLIC and hasSecrets lets it
+// out. Every store of a key.Key value into a field of a …PublicKey struct is
+// reached only through a successful type test of that value against a
+// …PublicKey type (type switch or comma-ok assertion), on every path.
+func c13PubType(c *Ctx) {
+	p, r := c.P, c.R
+	n := 0
+	for _, f := range p.SortedFuncs(core.Product) {
+		allInstrs(f, func(ins ssa.Instruction) {
+			base, fld, val, ok := guard.StoreField(ins)
+			if !ok || core.TypeID(val.Type()) != "key.Key" {
+				return
+			}
+			bn := core.NamedOf(base.Type())
+			if pt, isP := base.Type().Underlying().(*types.Pointer); isP {
+				bn = core.NamedOf(pt.Elem())
+			}
+			if bn == nil || !strings.Contains(bn.Obj().Name(), "PublicKey") {
+				return
+			}
+			n++
+			v := guard.Strip(val)
+			good := everyPathHas(ins.Block(), func(fs []guard.Fact) bool {
+				for _, fct := range fs {
+					ex, isE := fct.Cond.(*ssa.Extract)
+					if !isE || ex.Index != 1 || !fct.True {
+						continue
+					}
+					ta, isTA := ex.Tuple.(*ssa.TypeAssert)
+					if !isTA || guard.Strip(ta.X) != v {
+						continue
+					}
+					if tn := core.NamedOf(ta.AssertedType); tn != nil && strings.Contains(tn.Obj().Name(), "PublicKey") {
+						return true
+					}
+					if pt, isP := ta.AssertedType.Underlying().(*types.Pointer); isP {
+						if tn := core.NamedOf(pt.Elem()); tn != nil && strings.Contains(tn.Obj().Name(), "PublicKey") {
+							return true
+						}
+					}
+				}
+				return false
+			})
+			// a value that is statically a public key: the result of a PublicKey() accessor
+			if cc, _ := guard.CallOf(v); cc != nil && (strings.HasSuffix(guard.CalleeName(&cc.Call), ").PublicKey") || (cc.Call.IsInvoke() && cc.Call.Method.Name() == "PublicKey")) {
+				good = true
+			}
+			r.Check(good, "C13.pubtype", fmt.Sprintf("C13.pubtype/%s/%s.%s", core.FuncID(f), bn.Obj().Name(), fld), p.Pos(ins.Pos()),
+				"a key of unchecked dynamic type is stored into a public key object: a private key with the same parameters is accepted, serialised under the public type URL with the ASYMMETRIC_PUBLIC label, and written in the clear by WriteWithNoSecrets", "stored only after a successful type test against a …PublicKey type")
+		})
+	}
+	r.Counts["key_valued_fields_of_public_keys"] = n
+	r.Min("C13.pubtype", 1)
 }
